@@ -371,6 +371,14 @@ def generate(rng, seed, run, tier, focus='C11', xmode=False):
                 events.append(['txt_r', other, t, rng.choice(['fromfile', 'load']), dst])
                 kind2 = 'ctx'
             slots[(other, dst)] = {'li': f['li'], 'n': f['n'], 'm': f['m'], 'kind': kind2, 'big': f.get('big', False)}
+            if w[0] in ('txt_w', 'json_w') and not f.get('big') and rng.random() < 0.35:
+                # the same path rewritten at once with another table over the same labels (for the fixed-width
+                # formats: a file of exactly the same size, within the same second) and read again
+                s2 = rng.choice(slot_names)
+                events.append(['ctx_new', w[1], s2, f['li'], gen_table(rng, f['n'], f['m'])])
+                slots[(w[1], s2)] = {'li': f['li'], 'n': f['n'], 'm': f['m'], 'kind': 'ctx', 'big': False}
+                events.append([w[0], w[1], s2] + list(w[3:]))
+                events.append(list(events[-3][:-1]) + [dst] if events[-3][0] in ('txt_r', 'json_r') else ['battery', other, dst])
     return {'world': WORLD, 'seed': seed, 'run': run, 'labels': labels, 'config': cfg, 'events': events}
 
 
